@@ -21,6 +21,7 @@ import (
 	"sigs.k8s.io/kustomize/api/resource"
 	"sigs.k8s.io/kustomize/api/types"
 	"sigs.k8s.io/kustomize/kyaml/filesys"
+	kyaml06 "sigs.k8s.io/kustomize/kyaml/yaml"
 )
 
 // C06: ConfigMap/Secret generators layer like dictionaries; the name suffix is a function of the final content.
@@ -116,6 +117,15 @@ type layer06 struct {
 	Annos       [][2]string `json:"annos,omitempty"`
 	RefName     string      `json:"ref_name,omitempty"` // a Deployment referring to ConfigMap RefName is listed
 	Plain       bool        `json:"plain,omitempty"`    // a ServiceAccount (refers to nothing) is listed
+	// patches: JSON6902 entries that add/replace the whole /metadata/annotations map of a generated object
+	// (implementation-only cases: patches are not part of the C06 model)
+	AnnoPatches []annoPatch06 `json:"anno_patches,omitempty"`
+}
+
+type annoPatch06 struct {
+	Secret bool   `json:"secret,omitempty"`
+	Name   string `json:"name"`
+	Op     string `json:"op"` // add | replace
 }
 
 type case06 struct {
@@ -577,6 +587,16 @@ func writeTree06(fs filesys.FileSystem, l *layer06, id string) string {
 			if l.GImmutable {
 				b.WriteString("  immutable: true\n")
 			}
+		}
+	}
+	if len(l.AnnoPatches) > 0 {
+		b.WriteString("patches:\n")
+		for _, ap := range l.AnnoPatches {
+			kind := "ConfigMap"
+			if ap.Secret {
+				kind = "Secret"
+			}
+			fmt.Fprintf(&b, "- target:\n    kind: %s\n    name: %s\n  patch: |-\n    - op: %s\n      path: /metadata/annotations\n      value:\n        note: patched\n", kind, yq06(ap.Name), ap.Op)
 		}
 	}
 	writeGens06(&b, "configMapGenerator", l.CmGens)
@@ -1130,6 +1150,19 @@ func genTree06(rng *Rng) *layer06 {
 		}
 		cur = l
 	}
+	// JSON6902 patches on the annotations map of generated objects, in the layer that declares them or an outer one
+	if rng.Chance(45) && len(known) > 0 {
+		ch := chainOf06(cur)
+		np := 1 + rng.Intn(2)
+		for i := 0; i < np; i++ {
+			k := known[rng.Intn(len(known))]
+			if k.name == "" {
+				continue
+			}
+			l := ch[rng.Intn(len(ch))]
+			l.AnnoPatches = append(l.AnnoPatches, annoPatch06{Secret: k.secret, Name: k.name, Op: rng.Pick([]string{"add", "replace"})})
+		}
+	}
 	return cur
 }
 
@@ -1145,6 +1178,7 @@ func demoteRefs06(l *layer06) {
 		l.RefName = ""
 		l.Plain = true
 	}
+	l.AnnoPatches = nil // patches are not modelled either
 }
 
 // ---------- the law oracles (implementation only) ----------
@@ -1170,7 +1204,7 @@ func isChain06(t *layer06) ([]*layer06, bool) {
 }
 
 func layerEmpty06(l *layer06) bool {
-	return len(l.Bases) == 0 && l.RefName == "" && !l.Plain && len(l.CmGens) == 0 && len(l.SecGens) == 0 && !l.HasGenOpts &&
+	return len(l.Bases) == 0 && l.RefName == "" && !l.Plain && len(l.AnnoPatches) == 0 && len(l.CmGens) == 0 && len(l.SecGens) == 0 && !l.HasGenOpts &&
 		l.Ns == "" && l.Prefix == "" && l.Suffix == "" && len(l.Labels) == 0 && len(l.Annos) == 0
 }
 
@@ -1347,7 +1381,39 @@ const (
 	clsNull06  = "hash-ignores-null-named-keys"
 	clsMerge06 = "hash-yaml-roundtrip-merge-key"
 	clsFatal06 = "build-exits-log.Fatal:null-named-key"
+	clsTabPatch06 = "hash-yaml-roundtrip-leading-tab-after-json-patch"
+	clsNullPatch06 = "json-patch-fails:non-string-key"
 )
+
+func treeHasNonStringKey06(l *layer06) bool {
+	for _, b := range l.Bases {
+		if treeHasNonStringKey06(b) {
+			return true
+		}
+	}
+	for _, gs := range [][]gen06{l.CmGens, l.SecGens} {
+		for _, g := range gs {
+			for _, p := range g.Intent {
+				if kyaml06.IsValueNonString(string(p.K)) {
+					return true
+				}
+			}
+		}
+	}
+	return false
+}
+
+func treeHasPatch06(l *layer06) bool {
+	if len(l.AnnoPatches) > 0 {
+		return true
+	}
+	for _, b := range l.Bases {
+		if treeHasPatch06(b) {
+			return true
+		}
+	}
+	return false
+}
 
 func treeHasNullKey06(l *layer06) bool {
 	for _, b := range l.Bases {
@@ -1416,6 +1482,18 @@ func laws06(r *Run, c case06, ob buildObs06) {
 		return
 	}
 	if ob.cls != ClsOk {
+		if strings.Contains(ob.msg, "unsupported type: map[interface {}]interface {}") && treeHasPatch06(t) && treeHasNonStringKey06(t) {
+			// the JSON6902 filter marshals the object to JSON; an untagged key that YAML resolves to null / bool / number
+			// makes the data map a map[interface{}]interface{} (same root as hash-ignores-null-named-keys)
+			viol("dictionary", clsNullPatch06, "a JSON6902 patch on an object with a key that YAML resolves to a non-string fails: "+ob.msg)
+			return
+		}
+		if e.tabRisk && strings.Contains(ob.msg, "found a tab character") && treeHasPatch06(t) {
+			// the repair baa93c5 quotes such a value when the generator writes it; a JSON6902 patch re-reads the
+			// object from JSON, the style is lost and go-yaml writes the unreadable literal block again
+			viol("name_is_hash", clsTabPatch06, "build fails while hashing a JSON6902-patched object with a value that starts with a TAB and has several lines: "+ob.msg)
+			return
+		}
 		if e.tabRisk && strings.Contains(ob.msg, "found a tab character") {
 			viol("name_is_hash", clsTab06, "build fails while hashing a value that starts with a TAB and has several lines: "+ob.msg)
 			return
@@ -1789,6 +1867,9 @@ func countTree06(r *Run, l *layer06) {
 	}
 	if l.HasGenOpts {
 		r.Count("directive", "generatorOptions")
+	}
+	for _, ap := range l.AnnoPatches {
+		r.Count("directive", "json6902-"+ap.Op+"-annotations")
 	}
 }
 
